@@ -566,7 +566,7 @@ impl Gen {
         let amp = if which_invalid == 4 {
             0
         } else {
-            *self.rng.pick(&[1u64, 2, 10, 85, 100, 100, 1000, 5000, 100_000, 1_000_000])
+            *self.rng.pick(&[1u64, 2, 10, 85, 100, 100, 1000, 5000, 100_000, 1_000_000, 1_000_001, 5_000_000, 1_000_000_000])
         };
         let pool_type = if stable { PoolType::StableSwap { amp } } else { PoolType::ConstantProduct };
         let pool_fees = self.gen_fees(which_invalid == 5);
